@@ -53,6 +53,17 @@ template <typename A, typename B, typename Return = void>
 using EnableIfFungible =
     typename std::enable_if<IsFungible<A, B>::value, Return>::type;
 
+// Compares the element types A and B of two sequence containers. Sequences of
+// integral elements use the BINARY encoding while sequences of any other element
+// type use the ARRAY encoding, so fungible element types (for example a value
+// wrapper around an integer and the integer itself) only make the containers
+// fungible when both are integral or both are not.
+template <typename A, typename B>
+struct IsFungibleElement
+    : And<IsFungible<A, B>,
+          std::integral_constant<bool, std::is_integral<A>::value ==
+                                           std::is_integral<B>::value>> {};
+
 // Compares two function types to see if the return types and arguments are
 // fungible.
 template <typename ReturnA, typename ReturnB, typename... ArgsA,
@@ -65,7 +76,7 @@ struct IsFungible<ReturnA(ArgsA...), ReturnB(ArgsB...),
 // Compares two std::arrays to see if the element types are fungible.
 template <typename A, typename B, std::size_t Size>
 struct IsFungible<std::array<A, Size>, std::array<B, Size>>
-    : IsFungible<std::decay_t<A>, std::decay_t<B>> {};
+    : IsFungibleElement<std::decay_t<A>, std::decay_t<B>> {};
 
 // Compares two C arrays to see if the element types are fungible. Sizes are
 // explicitly compared to avoid falling back on the base IsFungible type which
@@ -73,13 +84,13 @@ struct IsFungible<std::array<A, Size>, std::array<B, Size>>
 // correctly.
 template <typename A, typename B, std::size_t SizeA, std::size_t SizeB>
 struct IsFungible<A[SizeA], B[SizeB]>
-    : And<IsFungible<std::decay_t<A>, std::decay_t<B>>,
+    : And<IsFungibleElement<std::decay_t<A>, std::decay_t<B>>,
           std::integral_constant<bool, SizeA == SizeB>> {};
 
 // Compares two std::vectors to see if the element types are fungible.
 template <typename A, typename B, typename AllocatorA, typename AllocatorB>
 struct IsFungible<std::vector<A, AllocatorA>, std::vector<B, AllocatorB>>
-    : IsFungible<std::decay_t<A>, std::decay_t<B>> {};
+    : IsFungibleElement<std::decay_t<A>, std::decay_t<B>> {};
 
 // Compares two std::maps to see if the element types are fungible.
 template <typename KeyA, typename ValueA, typename KeyB, typename ValueB,
@@ -179,26 +190,26 @@ struct IsFungible<
 // fungible.
 template <typename A, typename B, typename Allocator, std::size_t Size>
 struct IsFungible<std::vector<A, Allocator>, std::array<B, Size>>
-    : IsFungible<std::decay_t<A>, std::decay_t<B>> {};
+    : IsFungibleElement<std::decay_t<A>, std::decay_t<B>> {};
 template <typename A, typename B, typename Allocator, std::size_t Size>
 struct IsFungible<std::array<A, Size>, std::vector<B, Allocator>>
-    : IsFungible<std::decay_t<A>, std::decay_t<B>> {};
+    : IsFungibleElement<std::decay_t<A>, std::decay_t<B>> {};
 
 // Compares C array and std::vector to see if the elements types are fungible.
 template <typename A, typename B, typename Allocator, std::size_t Size>
 struct IsFungible<A[Size], std::vector<B, Allocator>>
-    : IsFungible<std::decay_t<A>, std::decay_t<B>> {};
+    : IsFungibleElement<std::decay_t<A>, std::decay_t<B>> {};
 template <typename A, typename B, typename Allocator, std::size_t Size>
 struct IsFungible<std::vector<A, Allocator>, B[Size]>
-    : IsFungible<std::decay_t<A>, std::decay_t<B>> {};
+    : IsFungibleElement<std::decay_t<A>, std::decay_t<B>> {};
 
 // Compares C array and std::array to see if the element types are fungible.
 template <typename A, typename B, std::size_t Size>
 struct IsFungible<A[Size], std::array<B, Size>>
-    : IsFungible<std::decay_t<A>, std::decay_t<B>> {};
+    : IsFungibleElement<std::decay_t<A>, std::decay_t<B>> {};
 template <typename A, typename B, std::size_t Size>
 struct IsFungible<std::array<A, Size>, B[Size]>
-    : IsFungible<std::decay_t<A>, std::decay_t<B>> {};
+    : IsFungibleElement<std::decay_t<A>, std::decay_t<B>> {};
 
 // Compares Result<ErrorEnum, A> and Result<ErrorEnum, B> to see if A and B are
 // fungible. ErrorEnum must be the same between fungible Result types because
